@@ -308,8 +308,8 @@ def run_pw(ctx, spec):
     # (e) the specification seen as a transformed variable: x_T1 + sum_{i>=2} beta_i x_Ti
     ref_av = h.pw_as_variable_value(x, th, bvals[1:])
     shp = exc_shape()
-    if k == 2 and not two_open:
-        # degenerate: no coefficient at all. A refusal by a library error is a domain restriction, not a wrong value.
+    if k == 2:
+        # degenerate (open or closed ends): no coefficient at all. A refusal by a library error is a domain restriction, not a wrong value.
         from biogeme.exceptions import BiogemeError
 
         try:
